@@ -127,4 +127,10 @@ def LoadSt.loadShellEnv (c : LoadSt) (pre : List Char) (environ : Environ) : Exc
   | .error e => .error e
   | .ok ev => .ok (c.load .env ev)
 
+/-- `set_runtime_path(None)` / `set_project_location(None)` followed by `load_runtime()` / `load_project()`: the
+    slot is reset and the found flag cleared by the setter, the load returns early (no path) WITHOUT re-merging, so
+    the cache keeps showing the old content until the next merge -/
+def LoadSt.unload (c : LoadSt) (l : Level) : LoadSt :=
+  { c with slots := c.slots.set l [], found := setFound c.found l none }
+
 end Inv
